@@ -469,6 +469,55 @@ def check_vs_residues(case):
     return viols, evals, keys
 
 
+def check_vs_nested(case):
+    """a virtual site built from another, simpler virtual site (valid in GROMACS, which constructs the kinds in the order
+    n, 2, 3, 4), with the two directives written in either order in the file and an improper that only the second
+    optimisation stage enforces: both sites sit where the manual formulas put them from the final template"""
+    viols, evals, keys = [], 0, []
+    base = dict(id="vsnest", names=["A", "B", "C", "D", "V", "W"], bonds=[(0, 1, 0.3), (1, 2, 0.3), (2, 3, 0.3)], angles=[(0, 1, 2, 110.0), (1, 2, 3, 110.0)])
+    combos = [("2", (0.3,), "3", (0.2, 0.3)), ("2", (0.5,), "3out", (0.2, 0.3, 1.5)), ("n", (), "3", (0.5, 0.5)), ("2", (1.2,), "4fdn", (0.5, 0.6, 0.1))]
+    for k1, p1, k2, p2 in combos:
+        sec1, f1, n1, _ = VS_KINDS[k1]
+        sec2, f2, n2, _ = VS_KINDS[k2]
+        # V (atom 5) from real atoms 1..n1 ; W (atom 6) from V and the real atoms 3, 4 (, 2)
+        l1 = ("5 1 " + " ".join(map(str, range(1, n1 + 1)))) if sec1 == "virtual_sitesn" else \
+            ("5 " + " ".join(map(str, range(1, n1 + 1))) + f" {f1} " + " ".join(map(str, p1)))
+        defs2 = [5, 3, 4, 2][:n2]
+        l2 = "6 " + " ".join(map(str, defs2)) + f" {f2} " + " ".join(map(str, p2))
+        for order in ("canonical", "reversed"):
+            for improper in (None, "1 2 3 4 2 50 100"):
+                for layout in (0, 1):
+                    extra = {}
+                    secs = [(sec1, l1), (sec2, l2)] if order == "canonical" else [(sec2, l2), (sec1, l1)]
+                    for sec, ln in secs:
+                        extra.setdefault(sec, []).append(ln)
+                    if improper:
+                        extra["dihedrals"] = [improper]
+                    evals += 1
+                    case1 = dict(kind="vsnest1", k1=k1, k2=k2, order=order, improper=bool(improper), layout=layout)
+                    try:
+                        top, recs = gen_templates(top_for([base], ["R"], extra_inter=extra), None, layout)
+                    except Exception as exc:  # noqa
+                        viols.append(crash_violation(exc, case1, assertion="templates-generated", tags=["nested-virtual-sites"]))
+                        continue
+                    mm = top.molecules[0]
+                    tmpl = mm.templates.get(mm.nodes[0].get("template"))
+                    if not tmpl or any(n not in tmpl for n in base["names"]):
+                        viols.append(dict(assertion="template-holds-the-residue-atom-names", tags=["nested-virtual-sites"], message=f"{case1}: template {tmpl and sorted(tmpl)}", case=case1, detail={}))
+                        continue
+                    P = {n: np.asarray(tmpl[n], dtype=float) for n in base["names"]}
+                    idx2name = {i + 1: n for i, n in enumerate(base["names"])}
+                    wantV = manual_vs(k1, p1, [P[idx2name[i]] for i in range(1, n1 + 1)])
+                    wantW = manual_vs(k2, p2, [P[idx2name[i]] for i in defs2])
+                    for nm, want in (("V", wantV), ("W", wantW)):
+                        if not np.abs(P[nm] - want).max() <= 1e-6 and len(viols) < 20:
+                            viols.append(dict(assertion="virtual-site-on-manual-formula", tags=["nested-virtual-sites", f"order:{order}"],
+                                              message=f"site {nm} ({k1 if nm == 'V' else k2}) at {P[nm]} but the formula gives {want} from the template; directives {order}, improper {bool(improper)}",
+                                              case=case1, detail={}))
+                    keys.append(f"vsnest:{k1}:{k2}:{order}:{bool(improper)}:{layout}")
+    return viols, evals, keys
+
+
 def check_user(case):
     """build files with [ template ] / [ volumes ] for a subset of residues"""
     viols, evals, keys = [], 0, []
@@ -630,17 +679,18 @@ def cases(tier):
     for p in range(nparts):
         yield dict(kind="pairs", part=p, nparts=nparts, tier=tier)
     yield dict(kind="vsres", tier=tier)
+    yield dict(kind="vsnest", tier=tier)
     for p in range(8):
         yield dict(kind="twomol", part=p, nparts=8, tier=tier)
     yield dict(kind="user", tier=tier)
 
 
-FUNCS = {"constr": check_constr, "optgeom": check_optgeom, "twomol": check_two_molecules, "vs": check_vs, "pairs": check_pairs, "vsres": check_vs_residues, "user": check_user}
+FUNCS = {"vsnest": check_vs_nested, "constr": check_constr, "optgeom": check_optgeom, "twomol": check_two_molecules, "vs": check_vs, "pairs": check_pairs, "vsres": check_vs_residues, "user": check_user}
 
 
 def run_case(case):
     if case["kind"] not in FUNCS:
-        fam = {"vs1": "vs", "pair1": "pairs", "vsres1": "vsres", "user1": "user", "twomol1": "twomol", "optgeom1": "optgeom", "constr1": "constr"}[case["kind"]]
+        fam = {"vs1": "vs", "pair1": "pairs", "vsres1": "vsres", "user1": "user", "twomol1": "twomol", "optgeom1": "optgeom", "constr1": "constr", "vsnest1": "vsnest"}[case["kind"]]
         out = []
         for part in range(24 if fam == "pairs" else 1):
             v, _, _ = FUNCS[fam](dict(kind=fam, tier="thorough", part=part, nparts=24))
